@@ -407,6 +407,15 @@ func (n *node) step(op int) bool {
 				return false
 			}
 			req = n.lastTrunc.CloneVT()
+			// the same request served a second time: the transport delivers a call at most once, so this stands
+			// for a retry by the same leader. It is kept while it can only cut entries that are not applied yet;
+			// a leader that has since committed entries above the target has them in its log and does not ask
+			// for their removal
+			if db := server.VerifFollowerDB(n.fc); db != nil {
+				if c, err := db.ReadCommitOffset(); err == nil && c > req.HeadEntryId.Offset {
+					return false
+				}
+			}
 		}
 		// entries acknowledged to the leader of this term since the node was last fenced: a truncation
 		// that removes them cannot come from that leader (it truncates a follower before it streams to it)
